@@ -106,14 +106,20 @@ Definition back_ok (model : res (fstate cval)) (obs : option (fstate cval)) : bo
   | _, _ => false
   end.
 
+(* [in_domain]: the field satisfies the guards of C10_roundtrip (the harness sets it to false only
+   for the limit probes "unit is the marker text" and "label-less vector"); then the state built by
+   the library must pass the decidable well-formedness test (sound for the theorem's hypothesis
+   wf_field: C10_wf_test_sound) and the read-back state must be the theorem's right-hand side
+   [canon f] itself *)
 Inductive c10_case :=
-| CRound (f : fstate cval) (file : option (h5new cval)) (back : option (fstate cval))
+| CRound (in_domain : bool) (f : fstate cval) (file : option (h5new cval)) (back : option (fstate cval))
 | CRead (file : h5file cval) (back : option (fstate cval)).
 
 Definition check_C10 (c : c10_case) : bool :=
   match c with
-  | CRound f (Some file) back =>
-      h5new_eqb (encode f) file && back_ok (decode cval_conv (NewFile file)) back
-  | CRound _ None _ => false
+  | CRound dom f (Some file) back =>
+      h5new_eqb (encode f) file && back_ok (decode cval_conv (NewFile file)) back &&
+      (if dom then wf_fieldb f && back_ok (OK (canon cval_conv f)) back else true)
+  | CRound _ _ None _ => false
   | CRead file back => back_ok (decode cval_conv file) back
   end.
